@@ -43,6 +43,12 @@ def _store_shape(body, s, field):
         op = top["op"].replace("WithOverflow", "").replace("Unchecked", "")
         a, b = top["a"], top["b"]
         a_is_field = a["k"] in ("copy", "move") and (last_field(a["p"]) or {}).get("name") == field
+        if not a_is_field and a["k"] in ("copy", "move"):
+            # `x = x + 1` reads the field into a temporary first
+            ao = body.origins(a)
+            lds = [o for o in ao if o[0] == "load"]
+            a_is_field = len(lds) == 1 and (last_field(lds[0][1]) or {}).get("name") == field and (last_field(lds[0][1]) or {}).get("adt") == INNER \
+                and not [o for o in ao if o[0] not in ("load", "arg")]
         if a_is_field and op == "Add":
             return ("inc", b), orig
         if a_is_field and op == "Sub":
